@@ -1,13 +1,1180 @@
-//! C05 seeds, field inventory and entry points for "m2" (stub: not built yet).
-use crate::seed::{Aux, Seed};
-use crate::worker::Runner;
+//! C05 seeds, field inventory and entry points for M2 models (wow_m2::parse_m2).
+//!
+//! Legacy (MD20) seeds: an `M2Model` is filled in memory with non-empty arrays in every section
+//! the library's writer serialises (name, global sequences, sequences, bones with animated tracks,
+//! vertices, textures, materials, lookup tables, bounding data, embedded skin views (<= 263),
+//! particle/ribbon emitters, texture/colour/transparency animations, events, attachments, cameras,
+//! lights) and written with `M2Model::write`. Key-frame data travels through the writer's
+//! "raw animation data + offset relocation" path (`raw_data.*_animation_data` keyed by placeholder
+//! offsets). The written file is parsed back with the library; the inventory is computed from the
+//! header layout of header.rs and the element layouts of chunks/*.rs and every registered
+//! count/offset position is cross-checked against the values the library parsed (assert).
+//!
+//! Three things the writer cannot produce are added afterwards by appending data to the file and
+//! patching the referring (count, offset) pair, which is legal in an offset-addressed format:
+//!   * texture file names (the writer computes the position of a texture definition from
+//!     `size_of::<M2Header>()`, the in-memory size of the Rust struct, and patches the wrong place),
+//!   * the inner per-sequence arrays of WotLK+ tracks (the writer copies the outer array verbatim),
+//!   * the small u16 / string / vec2 arrays referenced from ribbon and particle emitters.
+//! Event `ranges` are left empty: the writer emits their bytes without accounting for them.
+//!
+//! Chunked (MD21) seed: no writer exists in the crate; the file is "MD21" <size> <library-written
+//! MD20 payload> followed by the chunks `parse_chunked` knows (payloads laid out after the chunk
+//! parsers of chunks/rendering_enhancements.rs and model.rs) and one unknown chunk. Note that
+//! `parse_chunked` skips the MD21 payload altogether (parse_md21_simple), so only a handful of
+//! header fields of the embedded MD20 are registered there.
+use crate::seed::{add_chunk_seq, Aux, Seed};
+use crate::worker::{errname, Runner};
+use std::io::Cursor;
+use wow_m2::chunks::animation::{M2Animation, M2AnimationBlock, M2AnimationTrack, M2InterpolationType, M2Range};
+use wow_m2::chunks::bone::{M2Bone, M2BoneFlags};
+use wow_m2::chunks::color_animation::{M2Color, M2ColorAnimation};
+use wow_m2::chunks::m2_track::{M2Track, M2TrackBase};
+use wow_m2::chunks::material::{M2BlendMode, M2Material};
+use wow_m2::chunks::ribbon_emitter::M2RibbonEmitter;
+use wow_m2::chunks::texture::{M2Texture, M2TextureFlags, M2TextureType};
+use wow_m2::chunks::texture_animation::{M2TextureAnimation, M2TextureAnimationType};
+use wow_m2::chunks::transparency_animation::M2TransparencyAnimation;
+use wow_m2::chunks::{M2Attachment, M2Camera, M2Event, M2Light, M2LightType, M2ParticleEmitter, M2ParticleFlags, M2Vertex};
+use wow_m2::common::{C2Vector, C3Vector, M2Array, M2ArrayString, M2Parse, M2Vec};
+use wow_m2::header::{M2Header, M2ModelFlags};
+use wow_m2::model::{
+    AttachmentAnimationRaw, AttachmentTrackType, BoneAnimationRaw, CameraAnimationRaw, CameraTrackType, ColorAnimationRaw, ColorTrackType,
+    EmbeddedSkinRaw, EventRaw, LightAnimationRaw, LightTrackType, ParticleAnimationRaw, ParticleTrackType, RibbonAnimationRaw, RibbonTrackType,
+    TextureAnimationRaw, TextureTrackType, TrackType, TransparencyAnimationRaw, TransparencyTrackType,
+};
+use wow_m2::{M2Model, M2Version};
 
-pub fn seed_names(_thorough: bool) -> Vec<String> {
-    Vec::new()
+pub fn seed_names(thorough: bool) -> Vec<String> {
+    let mut v = vec!["wotlk-264".to_string(), "md21-legion".to_string()];
+    if thorough {
+        v.push("classic-256".into());
+        v.push("tbc-260".into());
+        v.push("tbc-263".into());
+        v.push("cata-272".into());
+        v.push("md20-legion-276".into());
+        v.push("wotlk-264-min".into());
+    }
+    v
+}
+
+// --------------------------------------------------------------------------------------------
+// building the in-memory model
+// --------------------------------------------------------------------------------------------
+
+/// Placeholder ("original") offsets for the writer's relocation maps.
+struct Fake(u32);
+impl Fake {
+    fn next(&mut self) -> u32 {
+        self.0 += 0x100;
+        self.0
+    }
+}
+
+struct Keys {
+    ranges: Vec<u8>,
+    ts: Vec<u8>,
+    vals: Vec<u8>,
+    ro: u32,
+    to: u32,
+    vo: u32,
+}
+
+fn stamps(n: u32) -> Vec<u8> {
+    (0..n).flat_map(|k| (k * 100).to_le_bytes()).collect()
+}
+
+/// An animated `M2AnimationBlock` with n keys plus the raw bytes the writer has to emit for it.
+fn block<T: M2Parse>(fake: &mut Fake, n: u32, vsz: usize) -> (M2AnimationBlock<T>, Keys) {
+    let k = Keys {
+        ranges: [0u32.to_le_bytes(), (n - 1).to_le_bytes()].concat(),
+        ts: stamps(n),
+        vals: vec![0x3C; n as usize * vsz],
+        ro: fake.next(),
+        to: fake.next(),
+        vo: fake.next(),
+    };
+    let t = M2AnimationTrack {
+        interpolation_type: M2InterpolationType::Linear,
+        global_sequence: -1,
+        interpolation_ranges: M2Array::new(1, k.ro),
+        timestamps: M2Array::new(n, k.to),
+        values: M2Vec { array: M2Array::new(n, k.vo), data: Vec::new() },
+    };
+    (M2AnimationBlock::new(t), k)
+}
+
+fn bone_track<T>(fake: &mut Fake, vnum: u32, n: u32, vsz: usize, bone: usize, tt: TrackType, raws: &mut Vec<BoneAnimationRaw>) -> M2Track<T> {
+    let (to, vo) = (fake.next(), fake.next());
+    if vnum < 264 {
+        let ro = fake.next();
+        raws.push(BoneAnimationRaw {
+            bone_index: bone,
+            track_type: tt,
+            timestamps: stamps(n),
+            values: vec![0x3C; n as usize * vsz],
+            ranges: Some([0u32.to_le_bytes(), (n - 1).to_le_bytes(), 0u32.to_le_bytes(), 0u32.to_le_bytes()].concat()),
+            original_timestamps_offset: to,
+            original_values_offset: vo,
+            original_ranges_offset: Some(ro),
+        });
+        M2Track {
+            base: M2TrackBase { interpolation_type: M2InterpolationType::Linear, global_sequence: 65535 },
+            ranges: Some(M2Array::new(2, ro)),
+            timestamps: M2Array::new(n, to),
+            values: M2Array::new(n, vo),
+        }
+    } else {
+        // WotLK+: the outer arrays hold one M2Array per sequence (2 sequences); the inner arrays
+        // are filled in after writing (see patch_inner_tracks)
+        raws.push(BoneAnimationRaw {
+            bone_index: bone,
+            track_type: tt,
+            timestamps: vec![0; 16],
+            values: vec![0; 16],
+            ranges: None,
+            original_timestamps_offset: to,
+            original_values_offset: vo,
+            original_ranges_offset: None,
+        });
+        M2Track {
+            base: M2TrackBase { interpolation_type: M2InterpolationType::Linear, global_sequence: 65535 },
+            ranges: None,
+            timestamps: M2Array::new(2, to),
+            values: M2Array::new(2, vo),
+        }
+    }
+}
+
+fn vec3(k: usize) -> C3Vector {
+    C3Vector { x: k as f32, y: 0.5 * k as f32, z: 1.0 }
+}
+
+fn build_model(vnum: u32, minimal: bool) -> M2Model {
+    let ver = M2Version::from_header_version(vnum).expect("m2: version");
+    let mut fake = Fake(0x0100_0000);
+    let mut m = M2Model::default();
+    m.header = M2Header::new(ver);
+    m.header.version = vnum;
+    m.header.flags = M2ModelFlags::TILT_X | M2ModelFlags::HAS_BONES;
+    if vnum > 263 {
+        m.header.num_skin_profiles = Some(2);
+    }
+    m.header.bounding_box_min = [-1.0, -1.0, 0.0];
+    m.header.bounding_box_max = [1.0, 1.0, 2.0];
+    m.header.bounding_sphere_radius = 2.5;
+    m.name = Some("C05Seed".to_string());
+    for i in 0..4usize {
+        m.vertices.push(M2Vertex {
+            position: vec3(i),
+            bone_weights: [255, 0, 0, 0],
+            bone_indices: [(i % 3) as u8, 0, 0, 0],
+            normal: C3Vector { x: 0.0, y: 1.0, z: 0.0 },
+            tex_coords: C2Vector { x: 0.25 * i as f32, y: 0.5 },
+            tex_coords2: Some(C2Vector { x: 0.0, y: 0.0 }),
+        });
+    }
+    if minimal {
+        return m;
+    }
+
+    m.global_sequences = vec![100, 2000];
+    for i in 0..2u16 {
+        m.animations.push(M2Animation {
+            animation_id: i * 4,
+            sub_animation_id: 0,
+            start_timestamp: 1000 * (i as u32 + 1),
+            end_timestamp: Some(1000 * (i as u32 + 2)),
+            movement_speed: 0.0,
+            flags: 0x20,
+            frequency: 0x7FFF,
+            padding: 0,
+            replay: Some(M2Range { minimum: 0.0, maximum: 0.0 }),
+            minimum_extent: Some([-1.0, -1.0, 0.0]),
+            maximum_extent: Some([1.0, 1.0, 2.0]),
+            extent_radius: Some(2.5),
+            next_animation: Some(-1),
+            aliasing: Some(i),
+        });
+    }
+    m.animation_lookup = vec![0, 1, 0xFFFF, 0xFFFF];
+
+    // bones: 0 fully animated, 1 static, 2 translation only
+    let mut braw = Vec::new();
+    for i in 0..3usize {
+        let mut b = M2Bone::new(i as i32 - 1, i as i16 - 1);
+        b.flags = M2BoneFlags::TRANSFORMED;
+        b.bone_name_crc = if vnum >= 260 { Some(0xC05C_0DE0 + i as u32) } else { None };
+        b.pivot = vec3(i);
+        if i == 0 {
+            b.translation = bone_track(&mut fake, vnum, 3, 12, i, TrackType::Translation, &mut braw);
+            b.rotation = bone_track(&mut fake, vnum, 3, 8, i, TrackType::Rotation, &mut braw);
+            b.scale = bone_track(&mut fake, vnum, 2, 12, i, TrackType::Scale, &mut braw);
+        } else if i == 2 {
+            b.translation = bone_track(&mut fake, vnum, 2, 12, i, TrackType::Translation, &mut braw);
+        }
+        m.bones.push(b);
+    }
+    m.raw_data.bone_animation_data = braw;
+    m.key_bone_lookup = vec![0, 1, 0xFFFF, 2];
+
+    // textures: the file names are appended after writing (see the module comment)
+    m.textures.push(M2Texture { texture_type: M2TextureType::Hardcoded, flags: M2TextureFlags::WRAP_X | M2TextureFlags::WRAP_Y, filename: M2ArrayString::default() });
+    m.textures.push(M2Texture { texture_type: M2TextureType::Body, flags: M2TextureFlags::empty(), filename: M2ArrayString::default() });
+    m.materials.push(M2Material::new(M2BlendMode::OPAQUE));
+    m.materials.push(M2Material::new(M2BlendMode::ALPHA));
+
+    m.raw_data.bone_lookup_table = vec![0, 1, 2, 0];
+    m.raw_data.texture_lookup_table = vec![0, 1];
+    m.raw_data.texture_units = vec![0, 0xFFFF];
+    m.raw_data.transparency_lookup_table = vec![0, 0];
+    m.raw_data.texture_animation_lookup = vec![0, 0xFFFF];
+    m.raw_data.bounding_triangles = [0u16, 1, 2].iter().flat_map(|v| v.to_le_bytes()).collect();
+    m.raw_data.bounding_vertices = vec![0x3C; 36];
+    m.raw_data.bounding_normals = vec![0x3C; 12];
+    m.raw_data.attachment_lookup_table = vec![0, 0xFFFF, 1];
+    m.raw_data.camera_lookup_table = vec![0, 0xFFFF];
+
+    if vnum <= 263 {
+        let mut view = vec![0u8; 44];
+        view[40..44].copy_from_slice(&21u32.to_le_bytes());
+        let sub = if vnum < 260 { 32 } else { 48 };
+        let mut submesh = vec![0u8; sub];
+        submesh[6..8].copy_from_slice(&4u16.to_le_bytes()); // vertex_count
+        submesh[10..12].copy_from_slice(&6u16.to_le_bytes()); // triangle_count
+        m.raw_data.embedded_skins.push(EmbeddedSkinRaw {
+            model_view: view,
+            indices: (0..4u16).flat_map(|v| v.to_le_bytes()).collect(),
+            triangles: [0u16, 1, 2, 1, 2, 3].iter().flat_map(|v| v.to_le_bytes()).collect(),
+            properties: vec![0; 16],
+            submeshes: submesh,
+            batches: vec![0; 96],
+            original_model_view_offset: 0,
+            original_indices_offset: 0,
+            original_triangles_offset: 0,
+            original_properties_offset: 0,
+            original_submeshes_offset: 0,
+            original_batches_offset: 0,
+        });
+    }
+
+    // particle emitter (default values obtained by parsing an all-zero record), two animated tracks
+    let mut pe = M2ParticleEmitter::parse(&mut Cursor::new(vec![0u8; 1024]), vnum).expect("m2: zero particle emitter");
+    pe.id = 1;
+    pe.flags = M2ParticleFlags::BILLBOARDED;
+    pe.bone_index = 1;
+    pe.texture_index = 1;
+    pe.lifetime = 1.5;
+    let (b1, k1) = block::<f32>(&mut fake, 2, 4);
+    let (b2, k2) = block::<M2Color>(&mut fake, 2, 12);
+    pe.emission_speed_animation = b1;
+    pe.color_animation = b2;
+    for (k, tt) in [(k1, ParticleTrackType::EmissionSpeed), (k2, ParticleTrackType::Color)] {
+        m.raw_data.particle_animation_data.push(ParticleAnimationRaw {
+            emitter_index: 0,
+            track_type: tt,
+            interpolation_ranges: k.ranges,
+            timestamps: k.ts,
+            values: k.vals,
+            original_ranges_offset: k.ro,
+            original_timestamps_offset: k.to,
+            original_values_offset: k.vo,
+        });
+    }
+    m.particle_emitters.push(pe);
+
+    let mut re = M2RibbonEmitter::parse(&mut Cursor::new(vec![0u8; 512]), vnum).expect("m2: zero ribbon emitter");
+    re.bone_index = 2;
+    re.edges_per_second = 10.0;
+    re.texture_rows = 1;
+    re.texture_cols = 1;
+    re.id = 7;
+    let (b1, k1) = block::<M2Color>(&mut fake, 2, 12);
+    let (b2, k2) = block::<f32>(&mut fake, 3, 4);
+    re.color_animation = b1;
+    re.height_above_animation = b2;
+    for (k, tt) in [(k1, RibbonTrackType::Color), (k2, RibbonTrackType::HeightAbove)] {
+        m.raw_data.ribbon_animation_data.push(RibbonAnimationRaw {
+            emitter_index: 0,
+            track_type: tt,
+            interpolation_ranges: k.ranges,
+            timestamps: k.ts,
+            values: k.vals,
+            original_ranges_offset: k.ro,
+            original_timestamps_offset: k.to,
+            original_values_offset: k.vo,
+        });
+    }
+    m.ribbon_emitters.push(re);
+
+    let mut ta = M2TextureAnimation::new(M2TextureAnimationType::Scroll);
+    let (b1, k1) = block::<f32>(&mut fake, 2, 4);
+    let (b2, k2) = block::<f32>(&mut fake, 2, 4);
+    ta.translation_u = b1;
+    ta.scale_v = b2;
+    for (k, tt) in [(k1, TextureTrackType::TranslationU), (k2, TextureTrackType::ScaleV)] {
+        m.raw_data.texture_animation_data.push(TextureAnimationRaw {
+            animation_index: 0,
+            track_type: tt,
+            interpolation_ranges: k.ranges,
+            timestamps: k.ts,
+            values: k.vals,
+            original_ranges_offset: k.ro,
+            original_timestamps_offset: k.to,
+            original_values_offset: k.vo,
+        });
+    }
+    m.texture_animations.push(ta);
+
+    let (b1, k1) = block::<M2Color>(&mut fake, 2, 12);
+    let (b2, k2) = block::<u16>(&mut fake, 2, 2);
+    m.color_animations.push(M2ColorAnimation { color: b1, alpha: b2 });
+    for (k, tt) in [(k1, ColorTrackType::Color), (k2, ColorTrackType::Alpha)] {
+        m.raw_data.color_animation_data.push(ColorAnimationRaw {
+            animation_index: 0,
+            track_type: tt,
+            interpolation_ranges: k.ranges,
+            timestamps: k.ts,
+            values: k.vals,
+            original_ranges_offset: k.ro,
+            original_timestamps_offset: k.to,
+            original_values_offset: k.vo,
+        });
+    }
+
+    let (b1, k) = block::<f32>(&mut fake, 2, 4);
+    m.transparency_animations.push(M2TransparencyAnimation { alpha: b1 });
+    m.raw_data.transparency_animation_data.push(TransparencyAnimationRaw {
+        animation_index: 0,
+        track_type: TransparencyTrackType::Alpha,
+        interpolation_ranges: k.ranges,
+        timestamps: k.ts,
+        values: k.vals,
+        original_ranges_offset: k.ro,
+        original_timestamps_offset: k.to,
+        original_values_offset: k.vo,
+    });
+
+    // events: first with two time stamps, second static
+    let mut e0 = M2Event::new(*b"$CAH", 1);
+    let eo = fake.next();
+    e0.times = M2Array::new(2, eo);
+    m.events.push(e0);
+    m.events.push(M2Event::new(*b"$FSD", 0));
+    m.raw_data.event_data.push(EventRaw { event_index: 0, ranges: Vec::new(), original_ranges_offset: 0, timestamps: stamps(2), original_timestamps_offset: eo });
+
+    let mut a0 = M2Attachment::new(11, 1);
+    let (b1, k) = block::<f32>(&mut fake, 2, 4);
+    a0.scale_animation = b1;
+    m.attachments.push(a0);
+    m.attachments.push(M2Attachment::new(0, 0));
+    m.raw_data.attachment_animation_data.push(AttachmentAnimationRaw {
+        attachment_index: 0,
+        track_type: AttachmentTrackType::Scale,
+        interpolation_ranges: k.ranges,
+        timestamps: k.ts,
+        values: k.vals,
+        original_ranges_offset: k.ro,
+        original_timestamps_offset: k.to,
+        original_values_offset: k.vo,
+    });
+
+    let mut cam = M2Camera::new(0);
+    let (b1, k1) = block::<C3Vector>(&mut fake, 2, 12);
+    let (b2, k2) = block::<f32>(&mut fake, 2, 4);
+    cam.position_animation = b1;
+    cam.roll_animation = b2;
+    m.cameras.push(cam);
+    for (k, tt) in [(k1, CameraTrackType::Position), (k2, CameraTrackType::Roll)] {
+        m.raw_data.camera_animation_data.push(CameraAnimationRaw {
+            camera_index: 0,
+            track_type: tt,
+            interpolation_ranges: k.ranges,
+            timestamps: k.ts,
+            values: k.vals,
+            original_ranges_offset: k.ro,
+            original_timestamps_offset: k.to,
+            original_values_offset: k.vo,
+        });
+    }
+
+    let mut li = M2Light::new(M2LightType::Point, 1, 3);
+    let (b1, k1) = block::<M2Color>(&mut fake, 2, 12);
+    let (b2, k2) = block::<f32>(&mut fake, 2, 4);
+    li.ambient_color_animation = b1;
+    li.visibility_animation = b2;
+    m.lights.push(li);
+    for (k, tt) in [(k1, LightTrackType::AmbientColor), (k2, LightTrackType::Visibility)] {
+        m.raw_data.light_animation_data.push(LightAnimationRaw {
+            light_index: 0,
+            track_type: tt,
+            interpolation_ranges: k.ranges,
+            timestamps: k.ts,
+            values: k.vals,
+            original_ranges_offset: k.ro,
+            original_timestamps_offset: k.to,
+            original_values_offset: k.vo,
+        });
+    }
+    m
+}
+
+// --------------------------------------------------------------------------------------------
+// byte helpers
+// --------------------------------------------------------------------------------------------
+
+fn rd32(b: &[u8], o: usize) -> u32 {
+    u32::from_le_bytes([b[o], b[o + 1], b[o + 2], b[o + 3]])
+}
+
+fn put32(b: &mut [u8], o: usize, v: u32) {
+    b[o..o + 4].copy_from_slice(&v.to_le_bytes());
+}
+
+/// Append `data` (4-byte aligned) and point the (count, offset) pair at `pair` to it.
+fn append_array(b: &mut Vec<u8>, pair: usize, count: u32, data: &[u8]) {
+    while b.len() % 4 != 0 {
+        b.push(0);
+    }
+    let o = b.len() as u32;
+    b.extend_from_slice(data);
+    put32(b, pair, count);
+    put32(b, pair + 4, o);
+}
+
+fn parse_legacy(bytes: &[u8]) -> M2Model {
+    M2Model::parse(&mut Cursor::new(bytes)).expect("m2: the library-written model parses back")
+}
+
+/// Size of one serialised element.
+fn esize(f: impl FnOnce(&mut Vec<u8>)) -> usize {
+    let mut v = Vec::new();
+    f(&mut v);
+    v.len()
+}
+
+// --------------------------------------------------------------------------------------------
+// header layout (header.rs)
+// --------------------------------------------------------------------------------------------
+
+#[derive(Clone)]
+struct HArr {
+    name: &'static str,
+    pos: usize,
+    unit: usize,
+    count: u32,
+    offset: u32,
+}
+
+struct Layout {
+    arrays: Vec<HArr>,
+    skin_profiles_pos: Option<usize>,
+    end: usize,
+}
+
+fn layout(h: &M2Header, sizes: &Sizes) -> Layout {
+    let v = h.version;
+    let mut arrays: Vec<HArr> = Vec::new();
+    let mut p = 8usize;
+    let mut skin = None;
+    macro_rules! a {
+        ($n:expr, $arr:expr, $u:expr) => {{
+            arrays.push(HArr { name: $n, pos: p, unit: $u, count: $arr.count, offset: $arr.offset });
+            p += 8;
+        }};
+    }
+    a!("name", h.name, 1);
+    p += 4; // flags
+    a!("global_sequences", h.global_sequences, 4);
+    a!("animations", h.animations, sizes.animation);
+    a!("animation_lookup", h.animation_lookup, 2);
+    if (256..=263).contains(&v) {
+        let x = h.playable_animation_lookup.expect("m2: playable_animation_lookup");
+        a!("playable_animation_lookup", x, 2);
+    }
+    a!("bones", h.bones, sizes.bone);
+    a!("key_bone_lookup", h.key_bone_lookup, 2);
+    a!("vertices", h.vertices, 48);
+    if v <= 263 {
+        a!("views", h.views, 44);
+    } else {
+        skin = Some(p);
+        p += 4;
+    }
+    a!("color_animations", h.color_animations, 56);
+    a!("textures", h.textures, 16);
+    a!("transparency_lookup", h.transparency_lookup, 28);
+    if v <= 263 {
+        let x = h.texture_flipbooks.expect("m2: texture_flipbooks");
+        a!("texture_flipbooks", x, 1);
+    }
+    a!("texture_animations", h.texture_animations, 144);
+    a!("color_replacements", h.color_replacements, 1);
+    a!("render_flags", h.render_flags, 4);
+    a!("bone_lookup_table", h.bone_lookup_table, 2);
+    a!("texture_lookup_table", h.texture_lookup_table, 2);
+    a!("texture_units", h.texture_units, 2);
+    a!("transparency_lookup_table", h.transparency_lookup_table, 2);
+    a!("texture_animation_lookup", h.texture_animation_lookup, 2);
+    p += 14 * 4; // bounding box, sphere, collision box, sphere
+    a!("bounding_triangles", h.bounding_triangles, 2);
+    a!("bounding_vertices", h.bounding_vertices, 12);
+    a!("bounding_normals", h.bounding_normals, 12);
+    a!("attachments", h.attachments, 48);
+    a!("attachment_lookup_table", h.attachment_lookup_table, 2);
+    a!("events", h.events, 44);
+    a!("lights", h.lights, sizes.light);
+    a!("cameras", h.cameras, sizes.camera);
+    a!("camera_lookup_table", h.camera_lookup_table, 2);
+    a!("ribbon_emitters", h.ribbon_emitters, sizes.ribbon);
+    a!("particle_emitters", h.particle_emitters, sizes.particle);
+    if let Some(x) = h.blend_map_overrides {
+        a!("blend_map_overrides", x, 1);
+    }
+    if let Some(x) = h.texture_combiner_combos {
+        a!("texture_combiner_combos", x, 2);
+    }
+    if let Some(x) = h.texture_transforms {
+        // present for Legion+ headers; the writer does not emit it, the parser then reads the
+        // first 8 bytes of the data section as this pair (never dereferenced)
+        a!("texture_transforms", x, 1);
+    }
+    Layout { arrays, skin_profiles_pos: skin, end: p }
+}
+
+struct Sizes {
+    animation: usize,
+    bone: usize,
+    light: usize,
+    camera: usize,
+    ribbon: usize,
+    particle: usize,
+}
+
+fn sizes(vnum: u32) -> Sizes {
+    let zero_pe = M2ParticleEmitter::parse(&mut Cursor::new(vec![0u8; 1024]), vnum).expect("m2: zero particle emitter");
+    let zero_re = M2RibbonEmitter::parse(&mut Cursor::new(vec![0u8; 512]), vnum).expect("m2: zero ribbon emitter");
+    Sizes {
+        animation: if vnum <= 256 { 32 } else { 52 },
+        bone: esize(|v| M2Bone::new(0, -1).write(v, vnum).unwrap()),
+        light: esize(|v| M2Light::new(M2LightType::Point, 0, 0).write(v, vnum).unwrap()),
+        camera: esize(|v| M2Camera::new(0).write(v, vnum).unwrap()),
+        ribbon: esize(|v| zero_re.write(v, vnum).unwrap()),
+        particle: esize(|v| zero_pe.write(v, vnum).unwrap()),
+    }
+}
+
+// --------------------------------------------------------------------------------------------
+// post-write patches
+// --------------------------------------------------------------------------------------------
+
+const TEX_NAME: &[u8] = b"World\\C05\\Seed.blp\0";
+
+/// Offsets of the three tracks inside a bone record.
+fn bone_track_offsets(vnum: u32) -> [usize; 3] {
+    let head = if vnum >= 260 { 16 } else { 12 };
+    let t = if vnum < 264 { 28 } else { 20 };
+    [head, head + t, head + 2 * t]
+}
+
+fn patch(bytes: &mut Vec<u8>, vnum: u32) {
+    let m = parse_legacy(bytes);
+    // texture file name of the second texture
+    if m.textures.len() >= 2 {
+        let pair = m.header.textures.offset as usize + 16 + 8;
+        append_array(bytes, pair, TEX_NAME.len() as u32, TEX_NAME);
+    }
+    // inner per-sequence arrays of WotLK+ bone tracks
+    if vnum >= 264 {
+        for (bi, b) in m.bones.iter().enumerate() {
+            let tracks = [(b.translation.timestamps, b.translation.values.convert::<u32>(), 12usize), (b.rotation.timestamps, b.rotation.values.convert::<u32>(), 8), (b.scale.timestamps, b.scale.values.convert::<u32>(), 12)];
+            for (ts, vals, vsz) in tracks {
+                if ts.count == 0 {
+                    continue;
+                }
+                assert_eq!(ts.count, 2, "m2: bone {bi} outer track arrays");
+                for s in 0..2usize {
+                    let n = 2 + s as u32;
+                    append_array(bytes, ts.offset as usize + 8 * s, n, &stamps(n));
+                    append_array(bytes, vals.offset as usize + 8 * s, n, &vec![0x3C; n as usize * vsz]);
+                }
+            }
+        }
+    }
+    // small arrays referenced from the emitters
+    if !m.ribbon_emitters.is_empty() {
+        let r = m.header.ribbon_emitters.offset as usize;
+        append_array(bytes, r + 16, 1, &1u16.to_le_bytes());
+        append_array(bytes, r + 24, 1, &0u16.to_le_bytes());
+    }
+    if !m.particle_emitters.is_empty() {
+        let p = m.header.particle_emitters.offset as usize;
+        append_array(bytes, p + 24, 10, b"Spell.mdx\0");
+        let tile = particle_tile_pair(vnum);
+        append_array(bytes, p + tile, 1, &[0x3C; 8]);
+    }
+}
+
+/// Offset of `texture_tile_coordinates` inside a particle emitter record (particle_emitter.rs).
+fn particle_tile_pair(vnum: u32) -> usize {
+    let ver = M2Version::from_header_version(vnum).expect("m2: version");
+    let mut p = 36; // id flags position bone texture model_filename parent unknown
+    if ver >= M2Version::Legion {
+        p += 8 + 4 + 8; // fallback model, 4 type bytes, texture file data ids
+        if ver >= M2Version::WoD {
+            p += 1;
+        }
+        if ver >= M2Version::BfA {
+            p += 8;
+        }
+    } else if ver >= M2Version::WoD {
+        p += 5;
+    } else {
+        p += 4;
+    }
+    p
+}
+
+// --------------------------------------------------------------------------------------------
+// inventory
+// --------------------------------------------------------------------------------------------
+
+struct Inv<'a> {
+    s: &'a mut Seed,
+    /// what offsets are relative to (0 for MD20 files, start of the MD21 payload for chunked ones)
+    base0: usize,
+    prefix: String,
+}
+
+impl Inv<'_> {
+    fn u32(&self, rel: usize) -> u32 {
+        self.s.u32_at(self.base0 + rel)
+    }
+    fn f(&mut self, rel: usize, width: u8, role: &'static str, name: String) {
+        let o = self.base0 + rel;
+        let nm = format!("{}{}", self.prefix, name);
+        self.s.field_ex(o, width, role, nm, o + width as usize, 1, None);
+    }
+    /// (count, offset) pair at `rel`; returns (count, offset)
+    fn arr(&mut self, rel: usize, name: &str, unit: usize, expect: Option<(u32, u32)>) -> (u32, u32) {
+        let (c, o) = (self.u32(rel), self.u32(rel + 4));
+        if let Some(e) = expect {
+            assert_eq!((c, o), e, "m2: {name} at {rel}: file and parsed values differ");
+        }
+        if c != 0 && !name.ends_with("texture_transforms") {
+            assert!(o as usize + c as usize * unit <= self.s.bytes.len() - self.base0 + unit * 3, "m2: {name} points outside the file ({c} x {unit} at {o})");
+        }
+        let p = self.base0 + rel;
+        let nm = format!("{}{}", self.prefix, name);
+        self.s.field_ex(p, 4, "count", format!("{nm}.count"), self.base0 + o as usize, unit, None);
+        self.s.field_ex(p + 4, 4, "offset", format!("{nm}.offset"), self.base0, 1, None);
+        (c, o)
+    }
+    /// M2AnimationBlock (28 bytes) at `rel`
+    fn block<T: M2Parse>(&mut self, rel: usize, name: &str, vsz: usize, b: &M2AnimationBlock<T>, full: bool) {
+        let t = &b.track;
+        if full {
+            self.f(rel, 2, "index", format!("{name}.interpolation"));
+            self.f(rel + 2, 2, "index", format!("{name}.global_sequence"));
+            self.arr(rel + 4, &format!("{name}.ranges"), 8, Some((t.interpolation_ranges.count, t.interpolation_ranges.offset)));
+            self.arr(rel + 12, &format!("{name}.timestamps"), 4, Some((t.timestamps.count, t.timestamps.offset)));
+            self.arr(rel + 20, &format!("{name}.values"), vsz, Some((t.values.array.count, t.values.array.offset)));
+        } else {
+            assert_eq!((self.u32(rel + 12), self.u32(rel + 20), self.u32(rel + 24)), (t.timestamps.count, t.values.array.count, t.values.array.offset));
+            let p = self.base0 + rel;
+            let nm = format!("{}{}", self.prefix, name);
+            let vo = self.u32(rel + 24) as usize;
+            let to = self.u32(rel + 16) as usize;
+            self.s.field_ex(p + 12, 4, "count", format!("{nm}.timestamps.count"), self.base0 + to, 4, None);
+            self.s.field_ex(p + 20, 4, "count", format!("{nm}.values.count"), self.base0 + vo, vsz, None);
+            self.s.field_ex(p + 24, 4, "offset", format!("{nm}.values.offset"), self.base0, 1, None);
+        }
+    }
+    /// M2Track of a bone at `rel` (20 bytes for 264+, 28 before)
+    fn track<T>(&mut self, rel: usize, name: &str, vsz: usize, t: &M2Track<T>, vnum: u32) {
+        self.f(rel, 2, "index", format!("{name}.interpolation"));
+        self.f(rel + 2, 2, "index", format!("{name}.global_sequence"));
+        let mut p = rel + 4;
+        if vnum < 264 {
+            let r = t.ranges.expect("m2: pre-264 track has ranges");
+            self.arr(p, &format!("{name}.ranges"), 8, Some((r.count, r.offset)));
+            p += 8;
+        }
+        let (tc, to) = self.arr(p, &format!("{name}.timestamps"), 4, Some((t.timestamps.count, t.timestamps.offset)));
+        let (vc, vo) = self.arr(p + 8, &format!("{name}.values"), vsz, Some((t.values.count, t.values.offset)));
+        if vnum >= 264 && tc > 0 && vc > 0 {
+            // first inner (per-sequence) arrays
+            self.arr(to as usize, &format!("{name}.timestamps[0]"), 4, None);
+            self.arr(vo as usize, &format!("{name}.values[0]"), vsz, None);
+        }
+    }
+}
+
+fn u16_entries(inv: &mut Inv, a: &HArr, label: &str) {
+    if a.count == 0 {
+        return;
+    }
+    let o = a.offset as usize;
+    inv.f(o, 2, "index", format!("{label}[0]"));
+    if a.count > 1 {
+        let k = a.count as usize - 1;
+        inv.f(o + 2 * k, 2, "index", format!("{label}[{k}]"));
+    }
+}
+
+fn inventory_legacy(s: &mut Seed, base0: usize, prefix: &str, m: &M2Model, nested: bool) {
+    let vnum = m.header.version;
+    let sz = sizes(vnum);
+    let lay = layout(&m.header, &sz);
+    assert!(base0 + lay.end <= s.bytes.len());
+    let mut inv = Inv { s, base0, prefix: prefix.to_string() };
+    assert_eq!(inv.u32(4), vnum);
+    assert_eq!(inv.u32(16), m.header.flags.bits());
+    inv.f(0, 4, "index", "hdr.magic".into());
+    inv.f(4, 4, "index", "hdr.version".into());
+    inv.f(16, 4, "index", "hdr.flags".into());
+    if let Some(p) = lay.skin_profiles_pos {
+        assert_eq!(Some(inv.u32(p)), m.header.num_skin_profiles);
+        inv.f(p, 4, "count", "hdr.num_skin_profiles".into());
+    }
+    if !nested {
+        // chunked seed: the payload is never interpreted by parse_chunked; keep a handful
+        for a in lay.arrays.iter().filter(|a| ["name", "bones", "vertices", "textures"].contains(&a.name)) {
+            inv.arr(a.pos, &format!("hdr.{}", a.name), a.unit, Some((a.count, a.offset)));
+        }
+        return;
+    }
+    for a in &lay.arrays {
+        if a.name == "name" {
+            assert_eq!((inv.u32(a.pos), inv.u32(a.pos + 4)), (a.count, a.offset));
+            let p = base0 + a.pos;
+            inv.s.field_ex(p, 4, "strlen", format!("{prefix}hdr.name.count"), base0 + a.offset as usize, 1, None);
+            inv.s.field_ex(p + 4, 4, "stroff", format!("{prefix}hdr.name.offset"), base0, 1, None);
+            if a.count > 0 {
+                let t = a.offset as usize + a.count as usize - 1;
+                assert_eq!(inv.s.bytes[base0 + t], 0);
+                inv.f(t, 1, "term", "name.nul".into());
+            }
+            continue;
+        }
+        inv.arr(a.pos, &format!("hdr.{}", a.name), a.unit, Some((a.count, a.offset)));
+    }
+    let h = |n: &str| lay.arrays.iter().find(|a| a.name == n).cloned().unwrap_or_else(|| panic!("m2: no header array {n}"));
+
+    // sequences
+    let a = h("animations");
+    if a.count > 0 {
+        let o = a.offset as usize;
+        inv.f(o, 2, "index", "seq[0].id".into());
+        inv.f(o + 2, 2, "index", "seq[0].sub_id".into());
+        if vnum > 256 {
+            inv.f(o + 48, 2, "index", "seq[0].next_animation".into());
+            inv.f(o + 50, 2, "index", "seq[0].aliasing".into());
+        }
+        let k = a.count as usize - 1;
+        if k > 0 && vnum > 256 {
+            inv.f(o + a.unit * k + 50, 2, "index", format!("seq[{k}].aliasing"));
+        }
+    }
+    u16_entries(&mut inv, &h("animation_lookup"), "animation_lookup");
+    u16_entries(&mut inv, &h("key_bone_lookup"), "key_bone_lookup");
+    u16_entries(&mut inv, &h("bone_lookup_table"), "bone_lookup_table");
+    u16_entries(&mut inv, &h("texture_lookup_table"), "texture_lookup_table");
+    u16_entries(&mut inv, &h("texture_units"), "texture_units");
+    u16_entries(&mut inv, &h("transparency_lookup_table"), "transparency_lookup_table");
+    u16_entries(&mut inv, &h("texture_animation_lookup"), "texture_animation_lookup");
+    u16_entries(&mut inv, &h("attachment_lookup_table"), "attachment_lookup_table");
+    u16_entries(&mut inv, &h("camera_lookup_table"), "camera_lookup_table");
+    u16_entries(&mut inv, &h("bounding_triangles"), "bounding_triangles");
+
+    // bones: first (all tracks) and last (translation)
+    let a = h("bones");
+    let to = bone_track_offsets(vnum);
+    for (bi, b) in m.bones.iter().enumerate() {
+        if bi != 0 && bi + 1 != m.bones.len() {
+            continue;
+        }
+        let o = a.offset as usize + a.unit * bi;
+        inv.f(o, 4, "index", format!("bone[{bi}].bone_id"));
+        inv.f(o + 4, 4, "index", format!("bone[{bi}].flags"));
+        inv.f(o + 8, 2, "index", format!("bone[{bi}].parent_bone"));
+        inv.f(o + 10, 2, "index", format!("bone[{bi}].submesh_id"));
+        inv.track(o + to[0], &format!("bone[{bi}].translation"), 12, &b.translation, vnum);
+        if bi == 0 {
+            inv.track(o + to[1], &format!("bone[{bi}].rotation"), 8, &b.rotation, vnum);
+            inv.track(o + to[2], &format!("bone[{bi}].scale"), 12, &b.scale, vnum);
+        }
+    }
+    // vertices: bone indices of the first vertex
+    let a = h("vertices");
+    if a.count > 0 {
+        inv.f(a.offset as usize + 16, 1, "index", "vertex[0].bone_index[0]".into());
+        inv.f(a.offset as usize + 12, 1, "index", "vertex[0].bone_weight[0]".into());
+    }
+    // textures
+    let a = h("textures");
+    for (ti, t) in m.textures.iter().enumerate() {
+        let o = a.offset as usize + 16 * ti;
+        inv.f(o, 4, "index", format!("texture[{ti}].type"));
+        inv.f(o + 4, 4, "index", format!("texture[{ti}].flags"));
+        let (c, fo) = (inv.u32(o + 8), inv.u32(o + 12));
+        assert_eq!((c, fo), (t.filename.array.count, t.filename.array.offset));
+        let p = base0 + o;
+        inv.s.field_ex(p + 8, 4, "strlen", format!("{prefix}texture[{ti}].filename.count"), base0 + fo as usize, 1, None);
+        inv.s.field_ex(p + 12, 4, "stroff", format!("{prefix}texture[{ti}].filename.offset"), base0, 1, None);
+        if c > 0 {
+            let t = fo as usize + c as usize - 1;
+            assert_eq!(inv.s.bytes[base0 + t], 0);
+            inv.f(t, 1, "term", format!("texture[{ti}].filename.nul"));
+        }
+    }
+    // materials
+    let a = h("render_flags");
+    if a.count > 0 {
+        inv.f(a.offset as usize, 2, "index", "material[0].flags".into());
+        inv.f(a.offset as usize + 2, 2, "index", "material[0].blend_mode".into());
+    }
+    // embedded skin views (<= 263)
+    if vnum <= 263 {
+        let a = h("views");
+        if a.count > 0 {
+            let o = a.offset as usize;
+            let sub = if vnum < 260 { 32 } else { 48 };
+            inv.arr(o, "view[0].indices", 2, None);
+            inv.arr(o + 8, "view[0].triangles", 2, None);
+            inv.arr(o + 16, "view[0].properties", 4, None);
+            let (sc, so) = inv.arr(o + 24, "view[0].submeshes", sub, None);
+            inv.arr(o + 32, "view[0].batches", 24, None);
+            inv.f(o + 40, 4, "index", "view[0].bone_count_max".into());
+            if sc > 0 {
+                let so = so as usize;
+                inv.f(so + 4, 2, "index", "view[0].submesh[0].vertex_start".into());
+                inv.f(so + 6, 2, "count", "view[0].submesh[0].vertex_count".into());
+                inv.f(so + 8, 2, "index", "view[0].submesh[0].triangle_start".into());
+                inv.f(so + 10, 2, "count", "view[0].submesh[0].triangle_count".into());
+            }
+        }
+    }
+    // attachments
+    let a = h("attachments");
+    if let Some(x) = m.attachments.first() {
+        let o = a.offset as usize;
+        inv.f(o, 4, "index", "attachment[0].id".into());
+        inv.f(o + 4, 4, "index", "attachment[0].bone".into());
+        inv.block(o + 20, "attachment[0].scale", 4, &x.scale_animation, true);
+    }
+    // events
+    let a = h("events");
+    if let Some(x) = m.events.first() {
+        let o = a.offset as usize;
+        inv.f(o + 4, 4, "index", "event[0].data".into());
+        inv.f(o + 8, 2, "index", "event[0].bone".into());
+        inv.f(o + 24, 2, "index", "event[0].interpolation".into());
+        inv.f(o + 26, 2, "index", "event[0].global_sequence".into());
+        inv.arr(o + 28, "event[0].ranges", 8, Some((x.ranges.count, x.ranges.offset)));
+        inv.arr(o + 36, "event[0].times", 4, Some((x.times.count, x.times.offset)));
+    }
+    // lights
+    let a = h("lights");
+    if let Some(x) = m.lights.first() {
+        let o = a.offset as usize;
+        inv.f(o, 1, "index", "light[0].type".into());
+        inv.f(o + 1, 2, "index", "light[0].bone".into());
+        inv.block(o + 16, "light[0].ambient_color", 12, &x.ambient_color_animation, true);
+        inv.block(o + 44, "light[0].diffuse_color", 12, &x.diffuse_color_animation, false);
+        inv.block(o + 72, "light[0].attenuation_start", 4, &x.attenuation_start_animation, false);
+        inv.block(o + 100, "light[0].attenuation_end", 4, &x.attenuation_end_animation, false);
+        inv.block(o + 128, "light[0].visibility", 4, &x.visibility_animation, false);
+    }
+    // cameras
+    let a = h("cameras");
+    if let Some(x) = m.cameras.first() {
+        let o = a.offset as usize;
+        inv.f(o, 4, "index", "camera[0].type".into());
+        inv.block(o + 16, "camera[0].position", 12, &x.position_animation, true);
+        inv.block(o + 56, "camera[0].target_position", 12, &x.target_position_animation, false);
+        inv.block(o + 96, "camera[0].roll", 4, &x.roll_animation, false);
+    }
+    // ribbon emitters
+    let a = h("ribbon_emitters");
+    if let Some(x) = m.ribbon_emitters.first() {
+        let o = a.offset as usize;
+        inv.f(o, 4, "index", "ribbon[0].bone".into());
+        inv.arr(o + 16, "ribbon[0].texture_indices", 2, Some((x.texture_indices.count, x.texture_indices.offset)));
+        inv.arr(o + 24, "ribbon[0].material_indices", 2, Some((x.material_indices.count, x.material_indices.offset)));
+        inv.block(o + 32, "ribbon[0].color", 12, &x.color_animation, true);
+        inv.block(o + 60, "ribbon[0].alpha", 4, &x.alpha_animation, false);
+        inv.block(o + 88, "ribbon[0].height_above", 4, &x.height_above_animation, false);
+        inv.block(o + 116, "ribbon[0].height_below", 4, &x.height_below_animation, false);
+    }
+    // particle emitters
+    let a = h("particle_emitters");
+    if let Some(x) = m.particle_emitters.first() {
+        let o = a.offset as usize;
+        let ver = M2Version::from_header_version(vnum).expect("m2: version");
+        let tail = if ver >= M2Version::Legion { 12 } else { 0 };
+        let blocks = o + a.unit - tail - 280;
+        inv.f(o + 4, 4, "index", "particle[0].flags".into());
+        inv.f(o + 20, 2, "index", "particle[0].bone".into());
+        inv.f(o + 22, 2, "index", "particle[0].texture".into());
+        inv.arr(o + 24, "particle[0].model_filename", 1, Some((x.model_filename.count, x.model_filename.offset)));
+        inv.arr(o + particle_tile_pair(vnum), "particle[0].tile_coordinates", 8, Some((x.texture_tile_coordinates.count, x.texture_tile_coordinates.offset)));
+        inv.block(blocks, "particle[0].emission_speed", 4, &x.emission_speed_animation, true);
+        inv.block(blocks + 28, "particle[0].emission_rate", 4, &x.emission_rate_animation, false);
+        inv.block(blocks + 56, "particle[0].emission_area", 4, &x.emission_area_animation, false);
+        inv.block(blocks + 84, "particle[0].xy_scale", 8, &x.xy_scale_animation, false);
+        inv.block(blocks + 112, "particle[0].z_scale", 4, &x.z_scale_animation, false);
+        inv.block(blocks + 140, "particle[0].color", 12, &x.color_animation, false);
+        inv.block(blocks + 168, "particle[0].transparency", 4, &x.transparency_animation, false);
+        inv.block(blocks + 196, "particle[0].size", 4, &x.size_animation, false);
+        inv.block(blocks + 224, "particle[0].intensity", 4, &x.intensity_animation, false);
+        inv.block(blocks + 252, "particle[0].z_source", 4, &x.z_source_animation, false);
+    }
+    // texture / colour / transparency animations
+    let a = h("texture_animations");
+    if let Some(x) = m.texture_animations.first() {
+        let o = a.offset as usize;
+        inv.f(o, 2, "index", "texanim[0].type".into());
+        inv.block(o + 4, "texanim[0].translation_u", 4, &x.translation_u, true);
+        inv.block(o + 32, "texanim[0].translation_v", 4, &x.translation_v, false);
+        inv.block(o + 60, "texanim[0].rotation", 4, &x.rotation, false);
+        inv.block(o + 88, "texanim[0].scale_u", 4, &x.scale_u, false);
+        inv.block(o + 116, "texanim[0].scale_v", 4, &x.scale_v, false);
+    }
+    let a = h("color_animations");
+    if let Some(x) = m.color_animations.first() {
+        let o = a.offset as usize;
+        inv.block(o, "coloranim[0].color", 12, &x.color, true);
+        inv.block(o + 28, "coloranim[0].alpha", 2, &x.alpha, false);
+    }
+    let a = h("transparency_lookup");
+    if let Some(x) = m.transparency_animations.first() {
+        inv.block(a.offset as usize, "transparency[0].alpha", 4, &x.alpha, true);
+    }
+}
+
+// --------------------------------------------------------------------------------------------
+// seeds
+// --------------------------------------------------------------------------------------------
+
+fn legacy_bytes(vnum: u32, minimal: bool) -> Vec<u8> {
+    let model = build_model(vnum, minimal);
+    let mut out = Cursor::new(Vec::new());
+    model.write(&mut out).expect("m2: M2Model::write");
+    let mut bytes = out.into_inner();
+    if !minimal {
+        patch(&mut bytes, vnum);
+    }
+    bytes
+}
+
+fn build_legacy(name: &str, vnum: u32, minimal: bool) -> Seed {
+    let bytes = legacy_bytes(vnum, minimal);
+    let m = parse_legacy(&bytes);
+    let mut s = Seed::new("m2", name, bytes);
+    inventory_legacy(&mut s, 0, "", &m, true);
+    s
+}
+
+fn chunk(out: &mut Vec<u8>, tag: &[u8; 4], payload: &[u8]) -> usize {
+    let at = out.len();
+    out.extend_from_slice(tag);
+    out.extend_from_slice(&(payload.len() as u32).to_le_bytes());
+    out.extend_from_slice(payload);
+    at + 8
+}
+
+fn le32s(v: &[u32]) -> Vec<u8> {
+    v.iter().flat_map(|x| x.to_le_bytes()).collect()
+}
+
+fn f32s(v: &[f32]) -> Vec<u8> {
+    v.iter().flat_map(|x| x.to_le_bytes()).collect()
+}
+
+fn build_chunked(name: &str) -> Seed {
+    let md20 = legacy_bytes(276, false);
+    let model = parse_legacy(&md20);
+    let mut b = Vec::new();
+    // (payload start, field list: (offset in payload, width, role, name, base in payload or usize::MAX, unit))
+    let mut inner: Vec<(usize, usize, u8, &'static str, String, usize, usize)> = Vec::new();
+    let md21 = chunk(&mut b, b"MD21", &md20);
+    chunk(&mut b, b"SFID", &le32s(&[1001, 1002, 1003]));
+    chunk(&mut b, b"AFID", &le32s(&[0x0004_0000, 2001, 0x0005_0000, 2002]));
+    chunk(&mut b, b"TXID", &le32s(&[0, 3001]));
+    chunk(&mut b, b"PFID", &le32s(&[4001]));
+    chunk(&mut b, b"SKID", &le32s(&[5001]));
+    chunk(&mut b, b"BFID", &le32s(&[6001, 6002]));
+    // LDV1: 14 bytes per level (distance f32, skin index u16, vertex count u32, triangle count u32)
+    let mut ldv = Vec::new();
+    for i in 0..2u32 {
+        ldv.extend_from_slice(&(10.0f32 * (i + 1) as f32).to_le_bytes());
+        ldv.extend_from_slice(&(i as u16).to_le_bytes());
+        ldv.extend_from_slice(&(4 - i).to_le_bytes());
+        ldv.extend_from_slice(&(2 - i).to_le_bytes());
+    }
+    let p = chunk(&mut b, b"LDV1", &ldv);
+    inner.push((p, 4, 2, "index", "LDV1.level[0].skin_file_index".into(), usize::MAX, 1));
+    inner.push((p, 6, 4, "count", "LDV1.level[0].vertex_count".into(), usize::MAX, 1));
+    // EXPT: typed records; type 0 = enhanced emitter (12 bytes), 1 = particle system (21 bytes),
+    // anything else = u32 size + bytes to skip
+    let mut ex = vec![0u8];
+    ex.extend_from_slice(&[1, 2]);
+    ex.extend_from_slice(&1.0f32.to_le_bytes());
+    ex.extend_from_slice(&[1, 0]);
+    ex.extend_from_slice(&0.5f32.to_le_bytes());
+    ex.push(1);
+    ex.extend_from_slice(&le32s(&[1, 64]));
+    ex.push(2);
+    ex.extend_from_slice(&f32s(&[0.1, 0.2, 0.3]));
+    ex.push(7);
+    let skip_at = ex.len();
+    ex.extend_from_slice(&3u32.to_le_bytes());
+    ex.extend_from_slice(&[9, 9, 9]);
+    let p = chunk(&mut b, b"EXPT", &ex);
+    inner.push((p, 0, 1, "index", "EXPT.record[0].type".into(), usize::MAX, 1));
+    inner.push((p, skip_at - 1, 1, "index", "EXPT.record[2].type".into(), usize::MAX, 1));
+    inner.push((p, skip_at, 4, "bsize", "EXPT.record[2].skip_size".into(), skip_at + 4, 1));
+    inner.push((p, 14, 4, "index", "EXPT.record[1].system_id".into(), usize::MAX, 1));
+    inner.push((p, 18, 4, "count", "EXPT.record[1].max_particles".into(), usize::MAX, 1));
+    // EXP2: emitter_count, system_count, 13-byte emitters, 25-byte systems
+    let mut e2 = le32s(&[1, 1]);
+    e2.extend_from_slice(&[1, 2]);
+    e2.extend_from_slice(&1.0f32.to_le_bytes());
+    e2.extend_from_slice(&[1, 0]);
+    e2.extend_from_slice(&0.5f32.to_le_bytes());
+    e2.push(1);
+    e2.extend_from_slice(&le32s(&[1, 64]));
+    e2.push(2);
+    e2.extend_from_slice(&f32s(&[0.1, 0.2, 0.3, 0.4]));
+    let p = chunk(&mut b, b"EXP2", &e2);
+    inner.push((p, 0, 4, "count", "EXP2.emitter_count".into(), 8, 13));
+    inner.push((p, 4, 4, "count", "EXP2.system_count".into(), 8 + 13, 25));
+    chunk(&mut b, b"PABC", &[4, 0, 5, 0, 0xFF, 0xFF]);
+    // PADC: weight_count x (u16 f32 u8), mode_count x (u8 u8 f32)
+    let mut pa = le32s(&[2]);
+    for i in 0..2u16 {
+        pa.extend_from_slice(&i.to_le_bytes());
+        pa.extend_from_slice(&0.5f32.to_le_bytes());
+        pa.push(1);
+    }
+    let mode_at = pa.len();
+    pa.extend_from_slice(&le32s(&[1]));
+    pa.extend_from_slice(&[1, 2]);
+    pa.extend_from_slice(&0.25f32.to_le_bytes());
+    let p = chunk(&mut b, b"PADC", &pa);
+    inner.push((p, 0, 4, "count", "PADC.weight_count".into(), 4, 7));
+    inner.push((p, 4, 2, "index", "PADC.weight[0].texture_index".into(), usize::MAX, 1));
+    inner.push((p, mode_at, 4, "count", "PADC.mode_count".into(), mode_at + 4, 6));
+    chunk(&mut b, b"WFV1", &f32s(&[1.0, 0.5, 0.25]));
+    let mut ed = le32s(&[2]);
+    ed.extend_from_slice(&f32s(&[10.0, 20.0]));
+    ed.extend_from_slice(&le32s(&[2]));
+    ed.extend_from_slice(&f32s(&[0.5, 1.0]));
+    let p = chunk(&mut b, b"EDGF", &ed);
+    inner.push((p, 0, 4, "count", "EDGF.distance_count".into(), 4, 4));
+    inner.push((p, 12, 4, "count", "EDGF.factor_count".into(), 16, 4));
+    let mut nerf = f32s(&[0.5]);
+    nerf.push(1);
+    let p = chunk(&mut b, b"NERF", &nerf);
+    inner.push((p, 4, 1, "index", "NERF.blend_mode".into(), usize::MAX, 1));
+    chunk(&mut b, b"DETL", &f32s(&[0.3, 0.6, 0.1]));
+    chunk(&mut b, b"RPID", &le32s(&[7001, 7002]));
+    chunk(&mut b, b"GPID", &le32s(&[8001]));
+    // TXAC: count x (M2TextureAnimation 144 bytes + 5 floats + 4 mode bytes = 168); the first block's
+    // values array points at the floats inside the chunk (offsets are chunk relative)
+    let mut tx = le32s(&[1]);
+    let mut ta = vec![0u8; 144];
+    ta[0] = 1;
+    put32(&mut ta, 4 + 12, 1); // translation_u.timestamps (count, offset)
+    put32(&mut ta, 4 + 16, 4 + 144);
+    put32(&mut ta, 4 + 20, 1); // translation_u.values (count, offset)
+    put32(&mut ta, 4 + 24, 4 + 144 + 4);
+    tx.extend_from_slice(&ta);
+    tx.extend_from_slice(&f32s(&[1.0, 0.0, 0.0, 1.0, 0.0]));
+    tx.extend_from_slice(&[1, 0, 0, 0]);
+    let p = chunk(&mut b, b"TXAC", &tx);
+    inner.push((p, 0, 4, "count", "TXAC.count".into(), 4, 168));
+    inner.push((p, 4, 2, "index", "TXAC.anim[0].type".into(), usize::MAX, 1));
+    inner.push((p, 4 + 4 + 12, 4, "count", "TXAC.anim[0].translation_u.timestamps.count".into(), 4 + 144, 4));
+    inner.push((p, 4 + 4 + 20, 4, "count", "TXAC.anim[0].translation_u.values.count".into(), 4 + 144 + 4, 4));
+    inner.push((p, 4 + 4 + 24, 4, "offset", "TXAC.anim[0].translation_u.values.offset".into(), 0, 1));
+    inner.push((p, 4 + 144 + 20, 1, "index", "TXAC.anim[0].animation_mode".into(), usize::MAX, 1));
+    inner.push((p, 4 + 144 + 21, 1, "index", "TXAC.anim[0].loop_behavior".into(), usize::MAX, 1));
+    inner.push((p, 4 + 144 + 22, 1, "index", "TXAC.anim[0].blend_mode".into(), usize::MAX, 1));
+    chunk(&mut b, b"PGD1", &[1, 0, 2, 0]);
+    chunk(&mut b, b"DBOC", &[1, 2, 3, 4, 5, 6, 7, 8]);
+    chunk(&mut b, b"AFRA", &[8, 7, 6, 5]);
+    // DPIV: four (count, offset) pairs (offsets chunk relative), then the arrays
+    let mut dp = vec![0u8; 32];
+    for (i, (n, data)) in [(2u32, f32s(&[0.0, 0.0, 0.0, 1.0, 1.0, 1.0])), (1, f32s(&[0.0, 0.0, 1.0])), (3, vec![0, 0, 1, 0, 2, 0]), (1, vec![1, 0])].into_iter().enumerate() {
+        let o = dp.len() as u32;
+        put32(&mut dp, 8 * i, n);
+        put32(&mut dp, 8 * i + 4, o);
+        dp.extend_from_slice(&data);
+    }
+    let p = chunk(&mut b, b"DPIV", &dp);
+    for (i, (nm, unit)) in [("vertex_pos", 12usize), ("face_norm", 12), ("index", 2), ("flags", 2)].into_iter().enumerate() {
+        let o = rd32(&dp, 8 * i + 4) as usize;
+        inner.push((p, 8 * i, 4, "count", format!("DPIV.{nm}_count"), o, unit));
+        inner.push((p, 8 * i + 4, 4, "offset", format!("DPIV.{nm}_offset"), 0, 1));
+    }
+    chunk(&mut b, b"PSBC", &f32s(&[-1.0, -1.0, 0.0, 1.0, 1.0, 2.0, 2.5]));
+    // PEDC: records (event_id, data_size, timestamp, data)
+    let mut pe = le32s(&[1, 3, 100]);
+    pe.extend_from_slice(&[1, 2, 3]);
+    pe.extend_from_slice(&le32s(&[2, 0, 200]));
+    let p = chunk(&mut b, b"PEDC", &pe);
+    inner.push((p, 4, 4, "bsize", "PEDC.entry[0].data_size".into(), 12, 1));
+    inner.push((p, 15 + 4, 4, "bsize", "PEDC.entry[1].data_size".into(), 15 + 12, 1));
+    // PCOL: vertex_count, face_count, material_count, vertices (12), faces (8), materials (12)
+    let mut pc = le32s(&[3, 1, 1]);
+    pc.extend_from_slice(&f32s(&[0.0, 0.0, 0.0, 1.0, 0.0, 0.0, 0.0, 1.0, 0.0]));
+    pc.extend_from_slice(&[0, 0, 1, 0, 2, 0, 0, 0]);
+    pc.extend_from_slice(&le32s(&[1]));
+    pc.extend_from_slice(&f32s(&[0.5, 0.5]));
+    let p = chunk(&mut b, b"PCOL", &pc);
+    inner.push((p, 0, 4, "count", "PCOL.vertex_count".into(), 12, 12));
+    inner.push((p, 4, 4, "count", "PCOL.face_count".into(), 12 + 36, 8));
+    inner.push((p, 8, 4, "count", "PCOL.material_count".into(), 12 + 36 + 8, 12));
+    inner.push((p, 12 + 36 + 6, 2, "index", "PCOL.face[0].material_index".into(), usize::MAX, 1));
+    let mut pf = f32s(&[1.0, 0.0, 0.0, 0.0, 1.0, 0.0, 0.0, 0.0, 1.0, 0.0, 0.0, 0.0, 1.0]);
+    pf.extend_from_slice(&le32s(&[3]));
+    pf.extend_from_slice(&[0xAA; 6]);
+    chunk(&mut b, b"PFDC", &pf);
+    chunk(&mut b, b"ZZZZ", &[0; 12]);
+
+    let mut s = Seed::new("m2", name, b);
+    let end = s.bytes.len();
+    let chunks = add_chunk_seq(&mut s, "top", 0, end, Vec::new(), false);
+    assert_eq!(chunks.len(), 28, "m2: chunk walk of the MD21 seed");
+    assert_eq!(chunks.last().map(|c| c.0 + c.1), Some(end));
+    for (p, rel, w, role, nm, base, unit) in inner {
+        let o = p + rel;
+        let base = if base == usize::MAX { o + w as usize } else { p + base };
+        s.field_ex(o, w, role, nm, base, unit, None);
+    }
+    inventory_legacy(&mut s, md21, "MD21/", &model, false);
+    s
 }
 
 pub fn build(name: &str) -> Seed {
-    wverif_common::tool_error(&format!("m2: unknown seed {name}"))
+    if std::env::var("C05_M2_DEBUG").is_ok() {
+        let _ = std::panic::take_hook();
+    }
+    match name {
+        "wotlk-264" => build_legacy(name, 264, false),
+        "wotlk-264-min" => build_legacy(name, 264, true),
+        "classic-256" => build_legacy(name, 256, false),
+        "tbc-260" => build_legacy(name, 260, false),
+        "tbc-263" => build_legacy(name, 263, false),
+        "cata-272" => build_legacy(name, 272, false),
+        "md20-legion-276" => build_legacy(name, 276, false),
+        "md21-legion" => build_chunked(name),
+        _ => wverif_common::tool_error(&format!("m2: unknown seed {name}")),
+    }
 }
 
-pub fn run(_r: &mut Runner, _bytes: &[u8], _aux: &Aux) {}
+pub fn run(r: &mut Runner, bytes: &[u8], _aux: &Aux) {
+    r.call("parse_m2", || wow_m2::parse_m2(&mut Cursor::new(bytes)).map(|_| ()).map_err(errname));
+}
